@@ -257,8 +257,8 @@ def judge(ctx, dec, wire, klass, wellformed=False, steps=True):
         return
     if ref_rej is not None:
         if ref_rej.reason in rc.STATED_REASONS:
-            if ref_rej.reason == 'overrun' and ref_rej.where == 'model':
-                # a field of a TLV container (not a Name component) extends past its parent
+            if ref_rej.reason == 'overrun' and ref_rej.where == 'model' and not (dec != 'lp' and ref_rej.detail.startswith('type 7 ')):
+                # a field of a TLV container (not a Name element, not a Name component) extends past its parent
                 mech = 'inner-overrun-accepted'
             else:
                 mech = f'accepts-illformed:{dec}:{ref_rej.reason}@{ref_rej.where}'
